@@ -56,7 +56,8 @@ void reader_side(sim::RunCtx& ctx) {
             // LogicalType union field id (parquet.thrift) -> the id the public header gives that type
             static const int ID[16] = {-1, CARQUET_LOGICAL_STRING, CARQUET_LOGICAL_MAP, CARQUET_LOGICAL_LIST, CARQUET_LOGICAL_ENUM, CARQUET_LOGICAL_DECIMAL, CARQUET_LOGICAL_DATE, CARQUET_LOGICAL_TIME,
                                        CARQUET_LOGICAL_TIMESTAMP, -1, CARQUET_LOGICAL_INTEGER, CARQUET_LOGICAL_NULL, CARQUET_LOGICAL_JSON, CARQUET_LOGICAL_BSON, CARQUET_LOGICAL_UUID, CARQUET_LOGICAL_FLOAT16};
-            SIM_CHECK(lt != nullptr, "schema.logical_type", "element %zu ('%s'): the file annotates it with LogicalType field %d but no logical type is reported", i, f.n->name.c_str(), f.n->logical);
+            if (f.n->converted_only) SIM_COUNT("probe.annotation_by_converted_type_only");
+            SIM_CHECK(lt != nullptr, "schema.logical_type", "element %zu ('%s'): the file annotates it (%s, LogicalType field id %d) but no logical type is reported", i, f.n->name.c_str(), f.n->converted_only ? "through the legacy converted_type field only" : "LogicalType", f.n->logical);
             SIM_CHECK((int)lt->id == ID[f.n->logical], "schema.logical_type", "element %zu ('%s'): LogicalType field %d in the file, reported id %d (expected %d)", i, f.n->name.c_str(), f.n->logical, (int)lt->id, ID[f.n->logical]);
             if (f.n->logical == 5) SIM_CHECK(lt->params.decimal.scale == f.n->lp1 && lt->params.decimal.precision == f.n->lp2, "schema.logical_type_params", "element %zu: DECIMAL(scale %d, precision %d) reported as scale %d precision %d", i, f.n->lp1, f.n->lp2, lt->params.decimal.scale, lt->params.decimal.precision);
             if (f.n->logical == 10) SIM_CHECK(lt->params.integer.bit_width == f.n->lp1 && (int)lt->params.integer.is_signed == f.n->lp2, "schema.logical_type_params", "element %zu: INTEGER(%d, signed=%d) reported as (%d, %d)", i, f.n->lp1, f.n->lp2, (int)lt->params.integer.bit_width, (int)lt->params.integer.is_signed);
